@@ -148,6 +148,9 @@ def check_call(c, fn, args, kwargs=None):
         ens.append((name, text, code, oldvals))
     whens = []
     for exc, when, exact in c.raises_l:
+        nw = getattr(c, 'native_whens', {}).get(exc)
+        if nw is not None:
+            when = nw
         w = True if when is None else bool(eval(_compile(when)[0], env))
         whens.append((exc, w, exact, when))
     pre_args = {k: snapshot(v) for k, v in ba.arguments.items()}
@@ -198,16 +201,19 @@ def target_of(qualname):
     return c, repo.resolve(qualname)
 
 
-def search(qualname, seed, budget_s, max_iter=200000):
-    """-> dict describing the first failing input, or None.  Deterministic in (seed, iteration)."""
+def search(qualname, seed, budget_s, max_iter=200000, start=0):
+    """-> dict describing the first failing input in iterations [start, max_iter), or None.  Deterministic in (seed, iteration):
+    the iteration range is the bound; the time budget is only a safety net (a truncated range is reported in last_stats)."""
     import time
     c, fn = target_of(qualname)
     if c.gen is None:
         return None
     t0 = time.time()
-    stats = {'tried': 0, 'skipped': 0}
-    for it in range(max_iter):
+    stats = {'tried': 0, 'skipped': 0, 'truncated': False}
+    search.last_stats = stats
+    for it in range(start, max_iter):
         if time.time() - t0 > budget_s:
+            stats['truncated'] = True
             break
         rnd = random.Random('%s/%d/%d' % (qualname, seed, it))
         reset_globals()
